@@ -152,6 +152,10 @@ def classify(desc, meta):
         return m.group(1), cls
     if "unwinding assertion" in desc:
         return "U", "unwind"
+    if "never freed" in desc:
+        return "C06", "leak"
+    if "rust_dealloc must be called" in desc:
+        return "C06", "bad-layout-size"
     if MEM_PAT.search(desc):
         return "C06", "memory-safety:" + norm(desc)
     return ("C05" if "C05" in meta["props"] else "C07"), "trap:" + norm(desc)
@@ -334,7 +338,8 @@ def run(prop_id: str, tier: str, seed: int) -> vlib.Outcome:
                              "bindings_sha256": hashlib.sha256(u["w_rs"].encode()).hexdigest()[:16]} for u in units]
     out.extra["cache_hits"] = sum(1 for u in units for r in u["results"].values() if r.get("cached"))
     out.checker_cmd = ("cargo kani --target-dir work/rustgen/slot<k> --output-format terse -Z stubbing -Z unstable-options "
-                       "--harness-timeout %ds -j <n> --exact --harness b::h::<name>...  (Kani %s, CBMC, cadical; RLIMIT_AS 12 GB)"
+                       "--harness-timeout %ds -j <n> --exact --harness b::h::<name>... --cbmc-args --memory-leak-check  "
+                       "(Kani %s, CBMC, cadical; RLIMIT_AS 12 GB)"
                        % (600 if tier != "thorough" else 1800, kani.kani_version()))
     out.functions_encoded = [span_between(*s) if s[2] else vlib.source_span(s[0], s[1]) for s in SPANS]
     out.functions_encoded.append({"generated": "w.rs per configuration (the real output of crates/rust for the corpus world)",
